@@ -27,5 +27,12 @@ func main() {
 	t0 := time.Now()
 	v, e := sim.RunTrace(tr, false)
 	fmt.Printf("took %v, violation=%v, steps=%d\n", time.Since(t0), v != nil, len(tr.Steps))
-	_ = e
+	for k, n := range e.St.Probes {
+		if len(k) > 4 && k[:4] == "max:" {
+			fmt.Printf("  %s = %d\n", k, n)
+		}
+	}
+	if v != nil {
+		fmt.Printf("  violation: %s: %s\n", v.Class, v.Msg)
+	}
 }
